@@ -112,6 +112,12 @@ of_linear_binary_code_finish_decoding_with_ml (of_linear_binary_code_cb_t	*ofcb)
 	 * last symbol of this equation. Here we need to do that explicitely in order to simplify the system
 	 * as much as possible.
 	 */
+	if (of_is_decoding_complete ((of_session_t*)ofcb))
+	{
+		/* all the source symbols are already available, there is nothing left to decode */
+		OF_EXIT_FUNCTION
+		return OF_STATUS_OK;
+	}
 	ofcb->remain_rows = ofcb->nb_repair_symbols;
 	ofcb->remain_cols = ofcb->nb_source_symbols + ofcb->nb_repair_symbols;
 	if (of_linear_binary_code_prepar_linear_system (ofcb) != OF_STATUS_OK)
